@@ -170,6 +170,11 @@ package service
 //@   trace[C02,encrypts-to-the-client-with-matched-key] each shadowsocks.NewWriter satisfies $arg0 == clientConn && $arg1 == evres("service.findAccessKey", 0).CryptoKey
 //@   trace[C08,response-salts-from-matched-key] each shadowsocks.(*Writer).SetSaltGenerator satisfies $arg1 == evres("service.findAccessKey", 0).SaltGenerator
 //@   trace[C08,salt-generator-installed] exactly 1 shadowsocks.(*Writer).SetSaltGenerator when result.2 == nil
+//@   trace[C02,C08,one-writer-per-connection] exactly 1 shadowsocks.NewWriter when result.2 == nil
+//@   trace[C02,C08,one-reader-per-connection] exactly 1 shadowsocks.NewReader when result.2 == nil
+//@   trace[C08,generator-installed-on-the-response-writer] each shadowsocks.(*Writer).SetSaltGenerator satisfies $arg0 == evres("shadowsocks.NewWriter", 0)
+//@   trace[C02,C08,returned-connection-uses-this-reader-and-this-writer] each transport.WrapConn satisfies $arg0 == clientConn && $arg1 == evres("shadowsocks.NewReader", 0) && as($arg2, "*shadowsocks.Writer") == evres("shadowsocks.NewWriter", 0) && result.1 == $res0
+//@   trace[C02,C08,connection-wrapped-once] exactly 1 transport.WrapConn when result.2 == nil
 //@   trace[C08,server-salt-checked-on-matched-key] each service.ServerSaltGenerator.IsServerSalt satisfies $recv == evres("service.findAccessKey", 0).SaltGenerator && sameslice($arg0, evres("service.findAccessKey", 2))
 //@   trace[C08,server-salt-checked] exactly 1 service.ServerSaltGenerator.IsServerSalt when evres("service.findAccessKey", 4) == nil
 //@   trace[C08,reflected-salt-refused] each service.ServerSaltGenerator.IsServerSalt satisfies $res0 == true ==> result.2 != nil && result.2.Status == "ERR_REPLAY_SERVER" && result.1 == nil && evcount("service.(*ReplayCache).Add") == 0
@@ -199,10 +204,16 @@ package service
 //@   props C18
 //@   params drainErr
 
+// getProxyRequest consumes exactly the SOCKS address from the decrypted stream (through the SOCKS
+// parser, verified from its own SSA to read no byte beyond it) and reports every parse error.
 //@ func getProxyRequest
-//@   props C18
+//@   props C02 C06 C18
 //@   params clientConn
 //@   requires clientConn != nil
+//@   trace[C02,address-read-by-the-socks-parser] exactly 1 socks.ReadAddr
+//@   trace[C02,reads-this-connection] each socks.ReadAddr satisfies $arg0 == clientConn
+//@   trace[C02,nothing-else-consumed-before-the-relay] each * satisfies uses(clientConn) ==> evis("socks.ReadAddr")
+//@   trace[C06,every-address-error-is-reported] each socks.ReadAddr satisfies ($res1 != nil ==> result.1 != nil) && ($res1 == nil ==> result.1 == nil)
 
 // absorbProbe reads until the client closes or the read deadline fires, then reports the probe.
 //@ func (*streamHandler).absorbProbe
@@ -415,6 +426,9 @@ package service
 //@   atomic
 //@   requires cl != nil && validElem(e)
 //@   trace[C19,reorders-under-the-write-lock] exactly 1 lock:service.cipherList.mu
+//@   trace[C01,C09,usage-marking-only-reorders-the-list] each list.* satisfies evis("list.(*List).MoveToFront")
+//@   trace[C01,C09,moves-the-given-element-of-this-list] each list.(*List).MoveToFront satisfies $arg0 == cl.list && $arg1 == e
+//@   ensures[C01,C09,same-keys-after-marking] cl.list == atlock(cl.list) && cl.list.n == atlock(cl.list.n)
 //@   trace[C19,no-read-lock-for-writes] never rlock:service.cipherList.mu
 
 // Update installs a new key list (it takes ownership): every element must hold a valid entry.
@@ -550,6 +564,9 @@ package service
 //@   params addr
 //@   pure
 //@   requires addr != nil
+//@   trace[C03,formatted-by-the-standard-address-formatter] holds evcount("net.(*UDPAddr).String") + evcount("net.Addr.String") == 1
+//@   trace[C03,zone-dropped-address-and-port-kept] each net.(*UDPAddr).String satisfies $arg0.Zone == "" && sameslice($arg0.IP, as(addr, "*net.UDPAddr").IP) && $arg0.Port == as(addr, "*net.UDPAddr").Port
+//@   trace[C03,other-addresses-formatted-as-they-are] each net.Addr.String satisfies $recv == addr
 
 // onWrite: the association's deadline never moves earlier, is at least now + 17 s after a DNS
 // datagram and now + the configured timeout after any other, and the tracked value changes only
@@ -772,7 +789,9 @@ package service
 //@   trace[C04,encrypted-reply-is-sent] each shadowsocks.Pack satisfies $res1 == nil ==> evcount("net.PacketConn.WriteTo") == 1
 //@   trace[C04,nothing-sent-without-reply] atmost 1 net.PacketConn.WriteTo
 //@   trace[C16,client-bytes-are-bytes-written] each net.PacketConn.WriteTo satisfies proxyClientBytes == $res0
-//@   trace[C14,expiry-only-on-timeout] each service.(*natconn).ReadFrom satisfies expired ==> $res2 != nil
+//@   trace[C14,expiry-only-on-error] each service.(*natconn).ReadFrom satisfies expired ==> $res2 != nil
+//@   trace[C04,C14,association-ends-only-on-a-read-timeout] each net.Error.Timeout satisfies $res0 == false ==> !expired
+//@   trace[C04,C14,expiry-needs-a-timeout-verdict] holds expired ==> evcount("net.Error.Timeout") >= 1
 
 // ---------------------------------------------------------------------------
 // Shared listeners (C11, C12, C13, C18, C19)
@@ -874,6 +893,16 @@ package service
 //@   trace[C12,C18,transient-accept-error-keeps-the-listener-open] each errors.Is satisfies $res0 == false ==> evcount("close") == 0
 //@   trace[C12,C18,stops-only-when-the-socket-is-closed] each errors.Is satisfies $res0 == true ==> evcount("close") == 1
 
+// The TCP listener hands out exactly what the socket reports: the connection, and the error with
+// its identity (the accept goroutine recognises a closed socket by errors.Is(err, net.ErrClosed)).
+//@ func (*TCPListener).AcceptStream
+//@   props C12 C18
+//@   params t
+//@   requires t != nil && t.ln != nil
+//@   trace[C12,C18,accepts-on-its-socket-once] exactly 1 net.(*TCPListener).AcceptTCP
+//@   trace[C12,C18,socket-error-returned-as-it-is] each net.(*TCPListener).AcceptTCP satisfies result.1 == $res1 && $arg0 == t.ln
+//@   trace[C12,C18,accepted-connection-returned] each net.(*TCPListener).AcceptTCP satisfies $res1 == nil ==> as(result.0, "*net.TCPConn") == $res0
+
 // close function of one stream handle. It runs at most once per handle (the handle clears
 // its onCloseFunc) and only after Acquire counted the handle, hence count > 0 on entry.
 //@ func (*multiStreamListener).Acquire$2
@@ -895,6 +924,7 @@ package service
 //@   ensures[C10,C11,C12,handle-counted] result.1 == nil ==> m.count == atlock(m.count) + 1 && m.pc != nil
 //@   ensures[C10,C11,C12,failed-acquire-not-counted] result.1 != nil ==> m.count == atlock(m.count) && m.pc == atlock(m.pc)
 //@   trace[C12,socket-reused-when-open] never net.ListenPacket when atlock(m.pc) != nil
+//@   trace[C11,C12,requests-and-shutdown-are-rendezvous-channels] each makechan satisfies $arg0 == 0
 
 // read goroutine of a shared packet listener
 //@ pred chaninv_readCh(v readRequest) := v.respCh != nil && !closed(v.respCh)
@@ -938,11 +968,14 @@ package service
 //@   ensures result.1 == nil ==> result.0 != nil
 
 //@ func (*listenerManager).ListenStream
-//@   props C12 C13 C18 C19
+//@   props C09 C12 C13 C18 C19
 //@   params m addr
 //@   acquires-level 20
 //@   requires m != nil
 //@   ensures result.1 == nil ==> result.0 != nil
+//@   trace[C09,C12,sockets-are-shared-by-literal-address-only] each maplookup satisfies $arg1 == addr
+//@   trace[C09,C12,registered-under-the-literal-address] each mapupdate satisfies $arg1 == addr
+//@   trace[C09,C12,listens-on-the-address-given] each service.NewMultiStreamListener satisfies $arg0 == addr
 // owner callbacks: the released address is forgotten, so that it can be bound again
 //@ func (*listenerManager).ListenStream$1
 //@   props C12 C13 C18 C19
@@ -951,11 +984,14 @@ package service
 //@   trace[C12,released-address-forgotten] exactly 1 mapdelete
 //@   trace[C12,forgets-its-own-address] each mapdelete satisfies $arg0 == m.streamListeners
 //@ func (*listenerManager).ListenPacket
-//@   props C12 C13 C18 C19
+//@   props C09 C12 C13 C18 C19
 //@   params m addr
 //@   acquires-level 20
 //@   requires m != nil
 //@   ensures result.1 == nil ==> result.0 != nil
+//@   trace[C09,C12,sockets-are-shared-by-literal-address-only] each maplookup satisfies $arg1 == addr
+//@   trace[C09,C12,registered-under-the-literal-address] each mapupdate satisfies $arg1 == addr
+//@   trace[C09,C12,listens-on-the-address-given] each service.NewMultiPacketListener satisfies $arg0 == addr
 //@ func (*listenerManager).ListenPacket$1
 //@   props C12 C13 C18 C19
 //@   acquires-level 20
@@ -1020,6 +1056,7 @@ package service
 //@   trace[C05,validator-consulted] exactly 1 service.makeValidatingTCPStreamDialer$1.targetIPValidator
 //@   trace[C05,verdict-returned] each service.makeValidatingTCPStreamDialer$1.targetIPValidator satisfies result == $res0
 //@   trace[C05,validates-dialed-address] each net.SplitHostPort satisfies $arg0 == address
+//@   trace[C05,validates-the-ip-being-connected-to] each service.makeValidatingTCPStreamDialer$1.targetIPValidator satisfies sameslice($arg0, pure("net.ParseIP", evres("net.SplitHostPort", 0)))
 
 //@ func makeValidatingTCPStreamDialer
 //@   props C05 C18
